@@ -8,16 +8,19 @@ import evalstream as es
 
 PID = "C04"
 MANIFEST = {
-    "text": "6 Coq theorems on the capture and call mechanisms of the evaluator model (capture by value of every "
-            "referenced bound name and nothing else; lookup order parameters > self/inputs > captured > caller; "
-            "positional binding with null optionals and list rest; arity classes of the documented shape; binding "
-            "never indexes past the arguments for ANY parameter list once arity passed).  PARTIAL: the consequence "
-            "'same result from every call site' is kept as a stated Prop and decided by the context-grammar search on "
-            "the implementation (every closure x every calling context x argument tuples) together with the EVAL "
-            "correspondence of the same programs against the model",
+    "text": "8 Coq theorems over the evaluator model: CALL-SITE INDEPENDENCE — FunctionDef::call of a hereditarily "
+            "closed function (free names = parameters, captured names or its own name; likewise for every captured "
+            "function) on closed arguments returns the same outcome and store from every scope chain with the same "
+            "`inputs`, at every call depth (simulation over all expression forms, operators and the callback-taking "
+            "built-ins included), and its result is closed again; plus the mechanisms: capture by value of every "
+            "referenced bound name and nothing else, lookup order, positional binding, arity classes of the documented "
+            "shape, binding never indexes past the arguments for ANY parameter list.  Tied to the code by the EVAL "
+            "correspondence on the context-grammar programs; the law itself re-checked on the implementation",
     "note": "trusted: Coq kernel + vm_compute; transcription of collect_free_variables / Expr::Lambda / "
-            "FunctionDef::call (validated by correspondence on the context programs); call-site independence itself "
-            "is explored, not proved",
+            "FunctionDef::call / evaluate_ast (validated by correspondence); built-ins outside the transcribed set are "
+            "Unmodelled in the theorem's evaluator; exclusions of the theorem = open findings F8 (self name before "
+            "captured value is part of the stated lookup order) and F32 (assignment expressions in function bodies); "
+            "no axioms",
     "design_ref": "DESIGN.md section 6 C04",
 }
 
@@ -36,6 +39,12 @@ CLOSURES = [
     ("k = 3\nF = x => {k}", ["k", "x"], ["(1)"]),
     ("k = 1\ng2 = () => k\nF = () => [g2(), k]", ["k", "g2"], ["()"]),
     ("k = 4\nF = x => (y => (z => x + y + z + k))(1)(2)", ["k", "x", "y", "z"], ["(3)"]),
+    # an inner lambda's parameter has the name of a captured outer variable that is used AFTER it
+    ("k = 10\nF = xs => [map(xs, k => k * 2), k]", ["k", "xs"], ["([1])"]),
+    ("k = 10\nF = xs => [xs via (k => k + 1), k, (k => k)(3), k]", ["k", "xs"], ["([1, 2])"]),
+    ("k = 10\nmk = k => xs => [xs where (k => k > 0), k]\nF = mk(5)", ["k", "xs", "mk"], ["([1])"]),
+    ("k = 10\nF = () => do {\n  g9 = k => k\n  return [g9(1), k]\n}", ["k", "g9"], ["()"]),
+    ("a1 = 1\nb1 = 2\nF = () => [reduce([1], (a1, b1) => a1 + b1, 0), a1, b1]", ["a1", "b1"], ["()"]),
 ]
 
 
